@@ -7,7 +7,7 @@ UNITS = [
          attrs=["#[verifier::exec_allows_no_decreases_clause]"],
          # rule E9: a fn item passed as a function value is eta-expanded (`f` -> `|x| f(x)`): Verus rejects a function whose
          # contract mentions its own call_ensures; the closure carries an explicit contract instead
-         text_rewrites=[("E9", ".flat_map(process_descendant)", ".flat_map(|__e| process_descendant(__e))", 2)],
+         text_rewrites=[("E9", ".flat_map(process_descendant)", ".flat_map(|__e| process_descendant(__e))", "+")],
          # rule E8: the collected children are bound so that "these are exactly children(node)" can be asserted
          shapes=[("R2", 1, "{ let __v = vf_enumerate_map_collect($X, $F); proof { assert(nodes(Data::Refs(__v)) =~= children(nd(data))); } __v }"),
                  ("R2v", 1, "{ let ghost __o = $X@; let __v = vf_into_map_collect($X, $F); proof { assert(nodes(Data::Refs(__v)) =~= children(nd(data))); } __v }")],
